@@ -257,8 +257,10 @@ class VBuf(V):
 
 
 class VStr(V):
-    def __init__(self, s=None, z=None, prefix=None):
-        self.s, self.z, self.prefix = s, z, prefix
+    """str: literal (s), symbolic sequence of code points (z), or unknown with a known literal prefix; `cls` tags
+    instances of str subclasses of the repo (Fingerprint)"""
+    def __init__(self, s=None, z=None, prefix=None, cls=None):
+        self.s, self.z, self.prefix, self.cls = s, z, prefix, cls
 
 
 class VNone(V):
@@ -579,9 +581,23 @@ class Exec:
         if isinstance(v, VExt):
             return z3.BoolVal(True)
         if isinstance(v, VObj):
-            lk = self.repo.lookup(v.cls, '__bool__')
-            if lk:
-                raise ToolLimit('__bool__ on object needs call context')
+            for dn in ('__bool__', '__len__'):
+                hk = None
+                for c in self.repo.mro(v.cls):
+                    if (c, dn) in self.hooks:
+                        hk = self.hooks[(c, dn)]
+                        break
+                lk = self.repo.lookup(v.cls, dn)
+                if hk is None and not lk:
+                    continue
+                if hk is not None:
+                    outs = hk(self, st, v, [])
+                else:
+                    outs = self.call_func(VFunc(lk[2], None, cls=lk[1], self_val=v, mod=self.repo.classes[lk[1]].module), [], {}, st, {'mod': self.repo.classes[lk[1]].module})
+                if len(outs) != 1 or isinstance(outs[0][1], Raise) or outs[0][0] is not st:
+                    raise ToolLimit('%s of %s forks or raises in a boolean context' % (dn, v.cls))
+                r = outs[0][1]
+                return self.truth(r, st) if dn == '__bool__' else (self.as_int(r) != 0)
             return z3.BoolVal(True)
         raise ToolLimit('truth of %r' % v)
 
@@ -616,6 +632,13 @@ class Exec:
             return False
         return bytes(out) if walk(z) else None
 
+    def strseq(self, v):
+        if v.z is not None:
+            return v.z
+        if isinstance(v.s, str):
+            return self.lit_bytes([ord(c) for c in v.s]) if v.s else z3.Empty(BYTES)
+        raise ToolLimit('unknown str value')
+
     def new_buf(self, st, z):
         cell = 'cell!%d' % next(_fresh)
         st.heap[cell] = z
@@ -643,7 +666,7 @@ class Exec:
         if isinstance(v, VBuf):
             return ['bytearray', 'object']
         if isinstance(v, VStr):
-            return ['str', 'object']
+            return ([c.split('.')[-1] for c in self.repo.mro(v.cls) if c in self.repo.classes] if v.cls else []) + ['str', 'object']
         if isinstance(v, VObj):
             return [c.split('.')[-1] for c in self.repo.mro(v.cls)] + ['object']
         if isinstance(v, VList):
@@ -735,6 +758,7 @@ class Exec:
         raise ToolLimit('constant %r' % (v,))
 
     def lit_bytes(self, b):
+        b = list(b)
         if len(b) == 0:
             return z3.Empty(BYTES)
         us = [z3.Unit(z3.IntVal(x)) for x in b]
@@ -886,6 +910,8 @@ class Exec:
             return self.seq(l, st) == self.seq(r, st)
         if isinstance(l, VStr) and isinstance(r, VStr) and l.s is not None and r.s is not None:
             return z3.BoolVal(l.s == r.s)
+        if isinstance(l, VStr) and isinstance(r, VStr) and (l.z is not None or isinstance(l.s, str)) and (r.z is not None or isinstance(r.s, str)):
+            return self.strseq(l) == self.strseq(r)
         if isinstance(l, VTuple) and isinstance(r, VTuple):
             if len(l.items) != len(r.items):
                 return z3.BoolVal(False)
@@ -1169,6 +1195,18 @@ class Exec:
                 return self.call_func(VFunc(lk[2], None, cls=lk[1], self_val=o, mod=self.repo.classes[lk[1]].module), [], {}, st, ctx)
             if lk and lk[0] == 'method':
                 return [(st, VFunc(lk[2], None, cls=lk[1], self_val=o, mod=self.repo.classes[lk[1]].module))]
+        if isinstance(o, VStr) and o.cls:
+            for c in self.repo.mro(o.cls):
+                if (c, attr) in self.hooks:
+                    hk = self.hooks[(c, attr)]
+                    if getattr(hk, 'is_method', False):
+                        return [(st, VBuiltin('hook', bound=(hk, o)))]
+                    return hk(self, st, o, [])
+            lk = self.repo.lookup(o.cls, attr)
+            if lk and lk[0] == 'prop':
+                return self.call_func(VFunc(lk[2], None, cls=lk[1], self_val=o, mod=self.repo.classes[lk[1]].module), [], {}, st, ctx)
+            if lk and lk[0] == 'method':
+                return [(st, VFunc(lk[2], None, cls=lk[1], self_val=o, mod=self.repo.classes[lk[1]].module))]
         if isinstance(o, VExt):
             hk = self.hooks.get(('ext:' + o.name, attr))
             if hk is not None and not getattr(hk, 'is_method', True):
@@ -1222,6 +1260,11 @@ class Exec:
                 h = hi.conc() if hi else None
                 if (lo is None or l is not None) and (hi is None or h is not None):
                     return VStr(s=o.s[l:h])
+            if o.z is not None:
+                L = z3.Length(o.z)
+                a = self.norm_idx(lo, L) if lo is not None else z3.IntVal(0)
+                b = self.norm_idx(hi, L) if hi is not None else L
+                return VStr(z=z3.Extract(o.z, a, z3.If(b > a, b - a, 0)))
             raise ToolLimit('slice of symbolic str')
         S = self.seq(o, st)
         L = z3.Length(S)
@@ -1492,8 +1535,20 @@ class Exec:
                 x = A[0]
                 if isinstance(x, (VTuple, VList, VSet)):
                     return [(st, VInt(len(self.items(x, st))))]
-                if isinstance(x, VStr) and x.s is not None:
+                if isinstance(x, VStr) and isinstance(x.s, str):
                     return [(st, VInt(len(x.s)))]
+                if isinstance(x, VStr) and x.z is not None:
+                    return [(st, VInt(z3.Length(x.z)))]
+                if isinstance(x, VInt) and x.enum and self.repo.lookup(x.enum, '__len__'):
+                    lk = self.repo.lookup(x.enum, '__len__')
+                    return self.call_func(VFunc(lk[2], None, cls=lk[1], self_val=x, mod=self.repo.classes[lk[1]].module), [], {}, st, ctx)
+                if isinstance(x, VObj):
+                    for s2, m in self.getattr(x, '__len__', st, ctx, n):
+                        if isinstance(m, Raise):
+                            return [(s2, Raise('TypeError', getattr(n, 'lineno', None)))]
+                        return self.call(m, [], {}, s2, ctx, n, env)
+                if isinstance(x, VDict):
+                    return [(st, VInt(len(x.pairs)))]
                 return [(st, VInt(z3.Length(self.seq(x, st))))]
             if name == 'max' or name == 'min':
                 zs = [self.as_int(a) for a in A]
@@ -1691,6 +1746,8 @@ class Exec:
             mro = self.repo.mro(selfv.cls if isinstance(selfv, VObj) else selfv.qual)
             after = mro[mro.index(C.qual) + 1:]
             for c in after:
+                if (c, name) in self.hooks:
+                    return self.hooks[(c, name)](self, st, selfv, A)
                 ci = self.repo.classes.get(c)
                 if ci and name in ci.methods:
                     return self.call_func(VFunc(ci.methods[name], None, cls=c, self_val=selfv, mod=ci.module), A, kws, st, ctx)
@@ -1737,6 +1794,13 @@ class Exec:
             if name == 'startswith' and b.prefix is not None and (b.prefix.startswith(A[0].s) or not A[0].s.startswith(b.prefix)):
                 return [(st, VBool(b.prefix.startswith(A[0].s)))]
             raise ToolLimit('%s on symbolic str' % name)
+        if isinstance(b, VStr) and name in ('upper', 'lower') and b.z is not None:
+            F = z3.Function('STR_' + name.upper(), BYTES, BYTES)
+            t = F(b.z)
+            st.facts.append(z3.Length(t) == z3.Length(b.z))
+            return [(st, VStr(z=t))]
+        if isinstance(b, VStr) and name in ('upper', 'lower') and isinstance(b.s, str):
+            return [(st, VStr(s=getattr(b.s, name)()))]
         if isinstance(b, VStr) and name == 'format':
             return [(st, VStr(s='<fmt>'))]
         if isinstance(b, VStr) and name == 'join' and b.s is not None and False:
@@ -1762,6 +1826,15 @@ class Exec:
                 return [(st, VBytes(t))]
             if name == 'digest_size':
                 return [(st, VInt(hashlib.new(b.alg).digest_size))]
+            if name == 'hexdigest':
+                res = self.call_builtin(VBuiltin('digest', bound=b), [], {}, st, ctx, n, env)
+                HEX = z3.Function('HEXLOWER', BYTES, BYTES)
+                out = []
+                for s2, d in res:
+                    t = HEX(d.z)
+                    s2.facts.append(z3.Length(t) == 2 * z3.Length(d.z))
+                    out.append((s2, VStr(z=t)))
+                return out
         if isinstance(b, VDict) and name == 'values':
             return [(st, VTuple([v for _, v in b.pairs]))]
         if isinstance(b, VDict) and name == 'copy':
